@@ -557,6 +557,7 @@ func runC11(r *ev.Run) {
 		}
 	}
 	runCancelRacesReply(r, "C11")
+	runAskerRestart(r, "C11", g.Fork())
 	// handlers that wait for their context, asked with short deadlines
 	for _, sf := range askStacks() {
 		idx++
